@@ -102,13 +102,25 @@ impl Request {
     where
         T: AsyncReadExt + Unpin,
     {
+        Self::from_buffered(&mut BufReader::new(stream), address).await
+    }
+
+    /// Attempts to read and parse one HTTP request from the given buffered reader.
+    ///
+    /// Bytes which the reader has buffered beyond the end of this request stay in the reader, so
+    ///   the same reader must be used for every request on a connection.
+    #[cfg(feature = "tokio")]
+    pub async fn from_buffered<T>(reader: &mut T, address: SocketAddr) -> Result<Self, RequestError>
+    where
+        T: AsyncBufReadExt + Unpin,
+    {
         let mut first_buf: [u8; 1] = [0; 1];
-        stream
+        reader
             .read_exact(&mut first_buf)
             .await
             .map_err(|_| RequestError::Disconnected)?;
 
-        Self::from_stream_inner(stream, address, first_buf[0]).await
+        Self::from_stream_inner(reader, address, first_buf[0]).await
     }
 
     /// Attempts to read and parse one HTTP request from the given stream, timing out after the timeout.
@@ -286,14 +298,13 @@ impl Request {
     /// Attempts to read and parse one HTTP request from the given reader.
     #[cfg(feature = "tokio")]
     async fn from_stream_inner<T>(
-        stream: &mut T,
+        reader: &mut T,
         address: SocketAddr,
         first_byte: u8,
     ) -> Result<Self, RequestError>
     where
-        T: AsyncReadExt + Unpin,
+        T: AsyncBufReadExt + Unpin,
     {
-        let mut reader = BufReader::new(stream);
         let mut start_line_buf: Vec<u8> = Vec::with_capacity(256);
         reader
             .read_until(0xA, &mut start_line_buf)
@@ -361,7 +372,7 @@ impl Request {
             // Read the body incrementally, so that memory use is bounded by the bytes actually
             //   received and not by the length the client claims.
             let mut content_buf: Vec<u8> = Vec::new();
-            (&mut reader)
+            (&mut *reader)
                 .take(content_length as u64)
                 .read_to_end(&mut content_buf)
                 .await
